@@ -28,7 +28,10 @@ type verifInConn struct {
 	verifConn
 	progress bool
 	expiries int
+	onRead   func()
 }
+
+func verifNewBufr(conn net.Conn) *bufio.Reader { return bufio.NewReaderSize(conn, readBufSize) }
 
 func (c *verifInConn) SetReadDeadline(t time.Time) error {
 	c.verifConn.SetReadDeadline(t)
@@ -40,6 +43,9 @@ func (c *verifInConn) SetReadDeadline(t time.Time) error {
 
 func (c *verifInConn) Read(p []byte) (int, error) {
 	c.rcalls++
+	if c.onRead != nil {
+		c.onRead()
+	}
 	if c.closed {
 		return 0, net.ErrClosed
 	}
